@@ -556,3 +556,39 @@ Definition ctx_eval (lib : golib) (c : bctx) (v : value) : cres :=
          the string branch is unreachable for the modelled types (all implement AsBool) *)
       match as_bool v with Conv b => CB b | ConvErr => CB true | NoIface => if is_nil v then CB false else CNoBool end
   end.
+
+(* ------------------------------------------------------------------ (int) / (float) casts *)
+(* std/convert_int.go, std/convert_float.go: a type switch on the As* interfaces in the order
+   written; a failed string conversion falls out of the switch to the fallback, which parses the
+   same text again and gives 0 *)
+Inductive castop := CastInt | CastFloat.
+Definition cast_eval (lib : golib) (c : castop) (v : value) : outcome :=
+  match c with
+  | CastInt =>
+      match v with
+      | VNil => Val (VInt 0)
+      | _ =>
+        match as_int v with
+        | Conv i => Val (VInt i)
+        | _ =>
+          match as_float lib v with
+          | Conv f => Val (VInt (f2i f))
+          | ConvErr => Val (VInt 0)
+          | NoIface => match as_bool v with Conv b => Val (VInt (if b then 1 else 0)) | _ => Val (VInt 0) end
+          end
+        end
+      end
+  | CastFloat =>
+      match v with
+      | VNil => Val (VFloat fzero)
+      | _ =>
+        match as_float lib v with
+        | Conv f => Val (VFloat f)
+        | ConvErr => Val (VFloat fzero)
+        | NoIface => match as_bool v with
+                     | Conv b => Val (VFloat (if b then 1 else 0)%float)
+                     | _ => Val (VFloat fzero)
+                     end
+        end
+      end
+  end.
